@@ -36,9 +36,13 @@ pub enum Kind {
     Delete,
     Lock,
     ShmMap,
+    /// not a file call: SQLite consults the authorizer while it compiles a statement; the n-th
+    /// consultation inside the request is refused, so that statement fails (SQLITE_AUTH) - the
+    /// failure of one SQL statement whatever its pages are, cached or not
+    Statement,
 }
 
-pub const KINDS: [Kind; 8] = [Kind::Read, Kind::Write, Kind::Sync, Kind::Truncate, Kind::Open, Kind::Delete, Kind::Lock, Kind::ShmMap];
+pub const KINDS: [Kind; 9] = [Kind::Read, Kind::Write, Kind::Sync, Kind::Truncate, Kind::Open, Kind::Delete, Kind::Lock, Kind::ShmMap, Kind::Statement];
 
 #[derive(Clone, Copy, Debug, PartialEq, Eq, Hash, serde::Serialize, serde::Deserialize)]
 pub struct Plan {
@@ -56,10 +60,10 @@ pub struct RecState {
     pub ops: Vec<FileOp>,
     pub recording: bool,
     pub plans: Vec<Plan>,
-    pub counters: [u32; 8],
+    pub counters: [u32; 9],
     pub injected: Vec<(Kind, u32, String)>,
     /// how many calls of each kind were seen while armed (tells the generator what is reachable)
-    pub seen: [u32; 8],
+    pub seen: [u32; 9],
     /// injected lock contention: this many further attempts to take the write lock (WAL write
     /// lock, or RESERVED and above on the database file) are answered SQLITE_BUSY, as if another
     /// connection held it
@@ -88,8 +92,8 @@ impl Recorder {
     pub fn arm(&self, plans: Vec<Plan>) {
         let mut s = self.state.lock().unwrap();
         s.plans = plans;
-        s.counters = [0; 8];
-        s.seen = [0; 8];
+        s.counters = [0; 9];
+        s.seen = [0; 9];
         s.injected.clear();
     }
     pub fn set_busy(&self, attempts: u32) {
@@ -105,7 +109,7 @@ impl Recorder {
         s.virtual_sleep = false;
         s.busy_hits
     }
-    pub fn disarm(&self) -> (Vec<(Kind, u32, String)>, [u32; 8]) {
+    pub fn disarm(&self) -> (Vec<(Kind, u32, String)>, [u32; 9]) {
         let mut s = self.state.lock().unwrap();
         s.plans.clear();
         (std::mem::take(&mut s.injected), s.seen)
@@ -472,9 +476,30 @@ fn shim_header_size() -> usize {
     (std::mem::size_of::<ShimFile>() + 15) & !15
 }
 
+/// Runs for every connection the process opens from now on: installs the authorizer through
+/// which `Kind::Statement` faults are delivered.
+unsafe extern "C" fn on_open(db: *mut ffi::sqlite3, _err: *mut *mut c_char, _api: *const ffi::sqlite3_api_routines) -> c_int {
+    ffi::sqlite3_set_authorizer(db, Some(authorize), std::ptr::null_mut());
+    ffi::SQLITE_OK
+}
+
+unsafe extern "C" fn authorize(_ud: *mut c_void, action: c_int, a3: *const c_char, _a4: *const c_char, _a5: *const c_char, _a6: *const c_char) -> c_int {
+    // a refused ROLLBACK is not a failure of the request's work; everything else may fail
+    if action == ffi::SQLITE_TRANSACTION && !a3.is_null() && CStr::from_ptr(a3).to_bytes().eq_ignore_ascii_case(b"ROLLBACK") {
+        return ffi::SQLITE_OK;
+    }
+    if let Some(rec) = current() {
+        if fire(&rec, Kind::Statement, "sql").is_some() {
+            return ffi::SQLITE_DENY;
+        }
+    }
+    ffi::SQLITE_OK
+}
+
 pub fn install() {
     GLOBAL.get_or_init(|| unsafe {
         ffi::sqlite3_initialize();
+        ffi::sqlite3_auto_extension(Some(on_open));
         let real = ffi::sqlite3_vfs_find(std::ptr::null());
         assert!(!real.is_null(), "no default sqlite vfs");
         let name: &'static CStr = CStr::from_bytes_with_nul(b"tcss-shim\0").unwrap();
